@@ -293,187 +293,108 @@ def txCheckers : List (String × List String) := [
   ("core/transaction/activateproducertransaction.go : ActivateProducerTransaction.CheckTransactionInput", ["guard len(t.Inputs()) != 0", "idx existingTxInputs[input.ReferKey()]", "idx existingTxInputs[input.ReferKey()]"]),
   ("core/transaction/activateproducertransaction.go : ActivateProducerTransaction.CheckTransactionOutput", ["guard len(t.Outputs()) > math.MaxUint16", "guard len(t.Outputs()) != 0"]),
   ("core/transaction/activateproducertransaction.go : ActivateProducerTransaction.CheckAttributeProgram", ["guard len(t.Programs()) != 0 || len(t.Attributes()) != 0"]),
-  ("core/transaction/activateproducertransaction.go : ActivateProducerTransaction.CheckTransactionPayload", []),
-  ("core/transaction/activateproducertransaction.go : ActivateProducerTransaction.CheckTransactionFee", []),
   ("core/transaction/activateproducertransaction.go : ActivateProducerTransaction.SpecialContextCheck", ["guard err != nil", "guard crMember != nil && (crMember.MemberState == crstate.MemberInactive || crMember.MemberState == crstate.MemberIllegal)", "guard producer == nil || !bytes.Equal(producer.NodePublicKey(), activateProducer.NodePublicKey)", "guard err != nil", "guard err != nil"]),
-  ("core/transaction/cancelproducertransaction.go : CancelProducerTransaction.CheckTransactionPayload", []),
-  ("core/transaction/cancelproducertransaction.go : CancelProducerTransaction.HeightVersionCheck", []),
   ("core/transaction/cancelproducertransaction.go : CancelProducerTransaction.SpecialContextCheck", ["guard err != nil"]),
   ("core/transaction/coinbasetransaction.go : CoinBaseTransaction.CheckTransactionInput", ["guard len(t.Inputs()) != 1", "idx t.Inputs()[0]", "idx t.Inputs()[0]", "idx t.Inputs()[0]"]),
   ("core/transaction/coinbasetransaction.go : CoinBaseTransaction.CheckTransactionOutput", ["guard len(t.Outputs()) > math.MaxUint16", "guard len(t.Outputs()) < 2", "idx t.Outputs()[0]", "idx t.Outputs()[0]", "idx t.Outputs()[1]", "guard len(t.Outputs()) == 2 && foundationReward < common.Fixed64(float64(totalReward)*0.3/0.65)"]),
   ("core/transaction/coinbasetransaction.go : CoinBaseTransaction.CheckAttributeProgram", ["guard len(t.Programs()) != 0"]),
-  ("core/transaction/coinbasetransaction.go : CoinBaseTransaction.CheckTransactionPayload", []),
   ("core/transaction/coinbasetransaction.go : CoinBaseTransaction.SpecialContextCheck", ["idx a.outputs[0]", "idx a.outputs[0]", "idx a.outputs[0]"]),
   ("core/transaction/coinbasetransaction.go : CoinBaseTransaction.ContextCheck", ["guard err != nil", "guard err != nil"]),
   ("core/transaction/crassetsrectifytransaction.go : CRAssetsRectifyTransaction.CheckAttributeProgram", ["guard len(t.Programs()) != 0", "guard len(t.Attributes()) != 0"]),
-  ("core/transaction/crassetsrectifytransaction.go : CRAssetsRectifyTransaction.CheckTransactionPayload", []),
-  ("core/transaction/crassetsrectifytransaction.go : CRAssetsRectifyTransaction.HeightVersionCheck", []),
   ("core/transaction/crassetsrectifytransaction.go : CRAssetsRectifyTransaction.SpecialContextCheck", ["guard len(t.Inputs()) > int(t.parameters.Config.CRConfiguration.MaxCRAssetsAddressUTXOCount)", "guard len(t.Inputs()) < int(t.parameters.Config.CRConfiguration.MinCRAssetsAddressUTXOCount)", "guard len(t.Outputs()) != 1", "idx t.Outputs()[0]", "idx t.Outputs()[0]"]),
   ("core/transaction/crcappropriationtransaction.go : CRCAppropriationTransaction.CheckTransactionOutput", ["guard len(t.Outputs()) > math.MaxUint16", "guard len(t.Outputs()) != 2", "idx t.Outputs()[0]", "idx t.Outputs()[1]", "guard err != nil", "guard err != nil"]),
   ("core/transaction/crcappropriationtransaction.go : CRCAppropriationTransaction.CheckAttributeProgram", ["guard len(t.Programs()) != 0", "guard len(t.Attributes()) != 0"]),
-  ("core/transaction/crcappropriationtransaction.go : CRCAppropriationTransaction.CheckTransactionPayload", []),
-  ("core/transaction/crcappropriationtransaction.go : CRCAppropriationTransaction.HeightVersionCheck", []),
   ("core/transaction/crcappropriationtransaction.go : CRCAppropriationTransaction.SpecialContextCheck", ["idx t.Outputs()[0]", "idx t.Outputs()[0]"]),
-  ("core/transaction/crcouncilmemberclaimnodetransaction.go : CRCouncilMemberClaimNodeTransaction.CheckTransactionPayload", []),
-  ("core/transaction/crcouncilmemberclaimnodetransaction.go : CRCouncilMemberClaimNodeTransaction.HeightVersionCheck", []),
   ("core/transaction/crcouncilmemberclaimnodetransaction.go : CRCouncilMemberClaimNodeTransaction.SpecialContextCheck", ["idx comm.ClaimedDPoSKeys[hex.EncodeToString(manager.NodePublicKey)]", "idx comm.NextClaimedDPoSKeys[hex.EncodeToString(manager.NodePublicKey)]", "guard crMember == nil", "guard len(crMember.DPOSPublicKey) != 0", "guard err != nil", "guard err != nil"]),
   ("core/transaction/crcproposalrealwithdrawtransaction.go : CRCProposalRealWithdrawTransaction.CheckAttributeProgram", ["guard len(t.Programs()) != 0", "guard len(t.Attributes()) != 0"]),
-  ("core/transaction/crcproposalrealwithdrawtransaction.go : CRCProposalRealWithdrawTransaction.CheckTransactionPayload", []),
-  ("core/transaction/crcproposalrealwithdrawtransaction.go : CRCProposalRealWithdrawTransaction.HeightVersionCheck", []),
   ("core/transaction/crcproposalrealwithdrawtransaction.go : CRCProposalRealWithdrawTransaction.SpecialContextCheck", ["guard txsCount != len(t.Outputs()) && txsCount != len(t.Outputs())-1", "guard txsCount != len(t.Outputs())", "idx t.Outputs()[len(t.Outputs())-1]", "idx txs[hash]", "idx t.Outputs()[i]", "idx txsMap[hash]", "idx txsMap[hash]"]),
   ("core/transaction/crcproposalresulttransaction.go : CRCProposalResultTransaction.CheckTransactionInput", ["guard len(t.Inputs()) != 0"]),
   ("core/transaction/crcproposalresulttransaction.go : CRCProposalResultTransaction.CheckTransactionOutput", ["guard len(t.Outputs()) > math.MaxUint16", "guard len(t.Outputs()) != 0"]),
   ("core/transaction/crcproposalresulttransaction.go : CRCProposalResultTransaction.CheckAttributeProgram", ["guard len(t.Programs()) != 0 || len(t.Attributes()) != 0"]),
-  ("core/transaction/crcproposalresulttransaction.go : CRCProposalResultTransaction.CheckTransactionPayload", []),
   ("core/transaction/crcproposalresulttransaction.go : CRCProposalResultTransaction.SpecialContextCheck", ["idx targetResults[r.ProposalHash]", "guard len(p.ProposalResults) != len(targetResults)", "idx targetResults[r.ProposalHash]"]),
-  ("core/transaction/crcproposalreviewtransaction.go : CRCProposalReviewTransaction.CheckTransactionPayload", []),
-  ("core/transaction/crcproposalreviewtransaction.go : CRCProposalReviewTransaction.HeightVersionCheck", []),
   ("core/transaction/crcproposalreviewtransaction.go : CRCProposalReviewTransaction.SpecialContextCheck", ["guard proposalState == nil", "guard crMember == nil", "guard len(crcProposalReview.OpinionData) >= payload.MaxOpinionDataSize", "guard err != nil", "guard err != nil"]),
-  ("core/transaction/crcproposaltrackingtransaction.go : CRCProposalTrackingTransaction.CheckTransactionPayload", []),
-  ("core/transaction/crcproposaltrackingtransaction.go : CRCProposalTrackingTransaction.HeightVersionCheck", []),
   ("core/transaction/crcproposaltrackingtransaction.go : CRCProposalTrackingTransaction.SpecialContextCheck", ["guard proposalState == nil", "guard len(cptPayload.MessageData) >= payload.MaxMessageDataSize", "guard len(cptPayload.SecretaryGeneralOpinionData) >= payload.MaxSecretaryGeneralOpinionDataSize", "guard err != nil", "guard err != nil", "guard err != nil", "guard err != nil", "guard err != nil", "guard err != nil"]),
-  ("core/transaction/crcproposaltransaction.go : CRCProposalTransaction.CheckTransactionPayload", []),
-  ("core/transaction/crcproposaltransaction.go : CRCProposalTransaction.HeightVersionCheck", []),
   ("core/transaction/crcproposaltransaction.go : CRCProposalTransaction.SpecialContextCheck", ["guard len(proposal.CategoryData) > blockchain.MaxCategoryDataStringLength", "guard len(proposal.DraftData) >= payload.MaxProposalDataSize", "guard len(proposal.Budgets) > blockchain.MaxBudgetsCount", "guard crMember == nil", "guard err != nil", "guard err != nil", "guard err != nil", "guard err != nil", "guard err != nil", "guard err != nil", "guard err != nil", "guard err != nil"]),
   ("core/transaction/crcproposalwithdraw.go : CRCProposalWithdrawTransaction.CheckAttributeProgram", ["guard len(t.Programs()) != 0 && t.parameters.BlockHeight < t.parameters.Config.CRConfiguration.CRCProposalWithdrawPayloadV1Height", "guard len(t.Programs()) == 0", "guard p.Code == nil", "guard len(p.Code) < program.MinProgramCodeSize", "guard p.Parameter == nil"]),
-  ("core/transaction/crcproposalwithdraw.go : CRCProposalWithdrawTransaction.CheckTransactionPayload", []),
-  ("core/transaction/crcproposalwithdraw.go : CRCProposalWithdrawTransaction.HeightVersionCheck", []),
   ("core/transaction/crcproposalwithdraw.go : CRCProposalWithdrawTransaction.SpecialContextCheck", ["guard proposalState == nil", "idx t.Outputs()[0]", "guard len(t.Outputs()) > 1", "idx t.Outputs()[1]", "guard len(t.Outputs()) > 2", "idx t.Outputs()[0]", "guard err != nil", "guard err != nil", "guard err != nil"]),
-  ("core/transaction/createnfttransaction.go : CreateNFTTransaction.CheckTransactionPayload", []),
   ("core/transaction/createnfttransaction.go : CreateNFTTransaction.CheckAttributeProgram", ["guard len(t.Programs()) != 1", "guard p.Code == nil", "guard len(p.Code) < program.MinProgramCodeSize", "guard p.Parameter == nil"]),
-  ("core/transaction/createnfttransaction.go : CreateNFTTransaction.HeightVersionCheck", []),
   ("core/transaction/createnfttransaction.go : CreateNFTTransaction.SpecialContextCheck", ["idx voteInfo.Info[0]", "idx voteInfo.Info[0]", "idx t.programs[0]", "guard err != nil", "idx state.NFTIDInfoHashMap[nftID]", "idx state.DposV2VoteRights[*stakeProgramHash]", "guard ucv != nil", "idx crState.UsedCRVotes[*stakeProgramHash]", "guard ucv != nil", "idx crState.UsedCRImpeachmentVotes[*stakeProgramHash]", "guard ucv != nil", "idx crState.UsedCRCProposalVotes[*stakeProgramHash]", "guard udv != nil", "idx state.UsedDposVotes[*stakeProgramHash]", "idx detailedVotes.Info[0]", "idx detailedVotes.Info[0]"]),
   ("core/transaction/dposv2claimrewardrealwithdrawtransaction.go : DposV2ClaimRewardRealWithdrawTransaction.CheckAttributeProgram", ["guard len(t.Programs()) != 0", "guard len(t.Attributes()) != 0"]),
-  ("core/transaction/dposv2claimrewardrealwithdrawtransaction.go : DposV2ClaimRewardRealWithdrawTransaction.CheckTransactionPayload", []),
-  ("core/transaction/dposv2claimrewardrealwithdrawtransaction.go : DposV2ClaimRewardRealWithdrawTransaction.HeightVersionCheck", []),
   ("core/transaction/dposv2claimrewardrealwithdrawtransaction.go : DposV2ClaimRewardRealWithdrawTransaction.SpecialContextCheck", ["guard txsCount != len(t.Outputs()) && txsCount != len(t.Outputs())-1", "idx txs[hash]", "idx t.Outputs()[i]", "idx txsMap[hash]", "idx txsMap[hash]"]),
-  ("core/transaction/dposv2claimrewardtransaction.go : DPoSV2ClaimRewardTransaction.HeightVersionCheck", []),
   ("core/transaction/dposv2claimrewardtransaction.go : DPoSV2ClaimRewardTransaction.CheckAttributeProgram", ["guard len(t.Programs()) != 1", "guard p.Code == nil", "guard len(p.Code) < program.MinProgramCodeSize", "guard p.Parameter == nil"]),
-  ("core/transaction/dposv2claimrewardtransaction.go : DPoSV2ClaimRewardTransaction.CheckTransactionPayload", []),
   ("core/transaction/dposv2claimrewardtransaction.go : DPoSV2ClaimRewardTransaction.SpecialContextCheck", ["idx t.Programs()[0]", "guard err != nil", "idx t.parameters.BlockChain.GetState().DPoSV2RewardInfo[addr]", "guard err != nil", "guard err != nil"]),
   ("core/transaction/exchangevotes.go : ExchangeVotesTransaction.HeightVersionCheck", ["guard blockHeight < chainParams.MultiExchangeVotesStartHeight && len(t.programs) > 1"]),
-  ("core/transaction/exchangevotes.go : ExchangeVotesTransaction.CheckTransactionOutput", []),
-  ("core/transaction/exchangevotes.go : ExchangeVotesTransaction.CheckTransactionPayload", []),
   ("core/transaction/exchangevotes.go : ExchangeVotesTransaction.CheckAttributeProgram", ["guard len(t.Programs()) != 1", "guard len(t.Programs()) < 1", "guard p.Code == nil", "guard len(p.Code) < program2.MinProgramCodeSize", "guard p.Parameter == nil"]),
-  ("core/transaction/exchangevotes.go : ExchangeVotesTransaction.SpecialContextCheck", []),
   ("core/transaction/illegalblocktransaction.go : IllegalBlockTransaction.CheckTransactionInput", ["guard len(t.Inputs()) != 0"]),
   ("core/transaction/illegalblocktransaction.go : IllegalBlockTransaction.CheckTransactionOutput", ["guard len(t.Outputs()) > math.MaxUint16", "guard len(t.Outputs()) != 0"]),
   ("core/transaction/illegalblocktransaction.go : IllegalBlockTransaction.CheckAttributeProgram", ["guard len(t.Programs()) != 0", "guard len(t.Attributes()) != 0"]),
-  ("core/transaction/illegalblocktransaction.go : IllegalBlockTransaction.CheckTransactionPayload", []),
   ("core/transaction/illegalblocktransaction.go : IllegalBlockTransaction.SpecialContextCheck", ["guard err != nil"]),
   ("core/transaction/illegalproposaltransaction.go : IllegalProposalTransaction.CheckTransactionInput", ["guard len(t.Inputs()) != 0"]),
   ("core/transaction/illegalproposaltransaction.go : IllegalProposalTransaction.CheckTransactionOutput", ["guard len(t.Outputs()) > math.MaxUint16", "guard len(t.Outputs()) != 0"]),
   ("core/transaction/illegalproposaltransaction.go : IllegalProposalTransaction.CheckAttributeProgram", ["guard len(t.Programs()) != 0 || len(t.Attributes()) != 0"]),
-  ("core/transaction/illegalproposaltransaction.go : IllegalProposalTransaction.CheckTransactionPayload", []),
   ("core/transaction/illegalproposaltransaction.go : IllegalProposalTransaction.SpecialContextCheck", ["guard err != nil"]),
   ("core/transaction/illegalsidechaintransaction.go : IllegalSideChainTransaction.CheckTransactionInput", ["guard len(t.Inputs()) != 0"]),
   ("core/transaction/illegalsidechaintransaction.go : IllegalSideChainTransaction.CheckTransactionOutput", ["guard len(t.Outputs()) > math.MaxUint16", "guard len(t.Outputs()) != 0"]),
   ("core/transaction/illegalsidechaintransaction.go : IllegalSideChainTransaction.CheckAttributeProgram", ["guard len(t.Programs()) != 0 || len(t.Attributes()) != 0"]),
-  ("core/transaction/illegalsidechaintransaction.go : IllegalSideChainTransaction.CheckTransactionPayload", []),
   ("core/transaction/illegalsidechaintransaction.go : IllegalSideChainTransaction.SpecialContextCheck", ["guard err != nil"]),
   ("core/transaction/illegalvotetransaction.go : IllegalVoteTransaction.CheckTransactionInput", ["guard len(t.Inputs()) != 0"]),
   ("core/transaction/illegalvotetransaction.go : IllegalVoteTransaction.CheckTransactionOutput", ["guard len(t.Outputs()) > math.MaxUint16", "guard len(t.Outputs()) != 0"]),
   ("core/transaction/illegalvotetransaction.go : IllegalVoteTransaction.CheckAttributeProgram", ["guard len(t.Programs()) != 0 || len(t.Attributes()) != 0"]),
-  ("core/transaction/illegalvotetransaction.go : IllegalVoteTransaction.CheckTransactionPayload", []),
   ("core/transaction/illegalvotetransaction.go : IllegalVoteTransaction.SpecialContextCheck", ["guard err != nil", "assert t.payload.(*payload.DPOSIllegalVotes)"]),
   ("core/transaction/inactivearbitratorstransaction.go : InactiveArbitratorsTransaction.CheckTransactionInput", ["guard len(t.Inputs()) != 0"]),
   ("core/transaction/inactivearbitratorstransaction.go : InactiveArbitratorsTransaction.CheckTransactionOutput", ["guard len(t.Outputs()) > math.MaxUint16", "guard len(t.Outputs()) != 0"]),
   ("core/transaction/inactivearbitratorstransaction.go : InactiveArbitratorsTransaction.CheckAttributeProgram", ["guard len(t.Programs()) != 1", "guard len(t.Attributes()) != 1", "guard len(t.Programs()) == 0", "guard program.Code == nil", "guard program.Parameter == nil"]),
-  ("core/transaction/inactivearbitratorstransaction.go : InactiveArbitratorsTransaction.CheckTransactionPayload", []),
   ("core/transaction/inactivearbitratorstransaction.go : InactiveArbitratorsTransaction.SpecialContextCheck", ["guard err != nil"]),
   ("core/transaction/nexttrundposinfotransaction.go : NextTurnDPOSInfoTransaction.CheckTransactionInput", ["guard len(t.Inputs()) != 0"]),
-  ("core/transaction/nexttrundposinfotransaction.go : NextTurnDPOSInfoTransaction.HeightVersionCheck", []),
   ("core/transaction/nexttrundposinfotransaction.go : NextTurnDPOSInfoTransaction.CheckTransactionOutput", ["guard len(t.Outputs()) > math.MaxUint16", "guard len(t.Outputs()) != 0"]),
   ("core/transaction/nexttrundposinfotransaction.go : NextTurnDPOSInfoTransaction.CheckAttributeProgram", ["guard len(t.Programs()) != 0 || len(t.Attributes()) != 0"]),
-  ("core/transaction/nexttrundposinfotransaction.go : NextTurnDPOSInfoTransaction.CheckTransactionPayload", []),
   ("core/transaction/nexttrundposinfotransaction.go : NextTurnDPOSInfoTransaction.SpecialContextCheck", ["guard t.parameters.BlockHeight+uint32(conf.DPoSConfiguration.NormalArbitratorsCount+len(conf.DPoSConfiguration.CRCArbiters)) >= blockchain.DefaultLedger.Arbitrators.GetDPoSV2ActiveHeight()"]),
   ("core/transaction/nftdestroytransaction.go : NFTDestroyTransactionFromSideChain.CheckTransactionInput", ["guard len(t.Inputs()) != 0"]),
   ("core/transaction/nftdestroytransaction.go : NFTDestroyTransactionFromSideChain.CheckTransactionOutput", ["guard len(t.Outputs()) != 0"]),
   ("core/transaction/nftdestroytransaction.go : NFTDestroyTransactionFromSideChain.CheckAttributeProgram", ["guard len(t.Programs()) != 1 || len(t.Attributes()) != 1", "guard len(t.Programs()) == 0", "guard p.Code == nil", "guard len(p.Code) < program.MinProgramCodeSize", "guard p.Parameter == nil"]),
-  ("core/transaction/nftdestroytransaction.go : NFTDestroyTransactionFromSideChain.CheckTransactionPayload", []),
-  ("core/transaction/nftdestroytransaction.go : NFTDestroyTransactionFromSideChain.HeightVersionCheck", []),
   ("core/transaction/nftdestroytransaction.go : NFTDestroyTransactionFromSideChain.SpecialContextCheck", ["guard len(canDestroyIDs) != len(nftDestroyPayload.IDs)", "guard err != nil"]),
-  ("core/transaction/recordsponsortransaction.go : RecordSponsorTransaction.HeightVersionCheck", []),
   ("core/transaction/recordsponsortransaction.go : RecordSponsorTransaction.CheckTransactionInput", ["guard len(t.Inputs()) != 0"]),
   ("core/transaction/recordsponsortransaction.go : RecordSponsorTransaction.CheckTransactionOutput", ["guard len(t.Outputs()) != 0"]),
   ("core/transaction/recordsponsortransaction.go : RecordSponsorTransaction.CheckAttributeProgram", ["guard len(t.Programs()) != 0", "guard len(t.Attributes()) != 1"]),
-  ("core/transaction/recordsponsortransaction.go : RecordSponsorTransaction.CheckTransactionPayload", []),
-  ("core/transaction/recordsponsortransaction.go : RecordSponsorTransaction.SpecialContextCheck", []),
-  ("core/transaction/recordtransaction.go : RecordTransaction.CheckTransactionPayload", []),
-  ("core/transaction/registerassettransaction.go : RegisterAssetTransaction.CheckTransactionPayload", []),
-  ("core/transaction/registercrtransaction.go : RegisterCRTransaction.CheckTransactionPayload", []),
-  ("core/transaction/registercrtransaction.go : RegisterCRTransaction.HeightVersionCheck", []),
   ("core/transaction/registercrtransaction.go : RegisterCRTransaction.SpecialContextCheck", ["guard err != nil", "guard err != nil", "guard cr != nil", "idx t.Programs()[0]", "guard err != nil", "slice code[2:]", "guard len(code) >= 2 && code[len(code)-1] == vm.CHECKSIG", "idx code[len(code)-1]", "slice code[1 : len(code)-1]", "guard code[len(code)-1] == vm.CHECKMULTISIG", "idx code[len(code)-1]", "guard err != nil", "guard err != nil", "guard err != nil"]),
-  ("core/transaction/registerproducertransaction.go : RegisterProducerTransaction.HeightVersionCheck", []),
-  ("core/transaction/registerproducertransaction.go : RegisterProducerTransaction.CheckTransactionPayload", []),
   ("core/transaction/registerproducertransaction.go : RegisterProducerTransaction.SpecialContextCheck", ["guard multiSignOwner && len(info.OwnerKey) == crypto.NegativeBigLength", "guard err != nil", "guard err != nil", "guard err != nil", "guard err != nil", "guard err != nil", "guard err != nil", "guard len(t.Programs()) != 1", "idx t.Programs()[0]", "slice t.Programs()[0].Code[2:]", "idx t.Programs()[0]", "idx t.Programs()[0]", "idx t.Programs()[0]", "idx t.Programs()[0]", "idx code[len(code)-2]", "guard err != nil"]),
   ("core/transaction/returncrdepositcointransaction.go : ReturnCRDepositCoinTransaction.CheckAttributeProgram", ["guard len(t.Programs()) != 1", "guard len(t.Programs()) == 0", "guard p.Code == nil", "guard len(p.Code) < program.MinProgramCodeSize", "guard p.Parameter == nil"]),
-  ("core/transaction/returncrdepositcointransaction.go : ReturnCRDepositCoinTransaction.CheckTransactionPayload", []),
-  ("core/transaction/returncrdepositcointransaction.go : ReturnCRDepositCoinTransaction.HeightVersionCheck", []),
   ("core/transaction/returncrdepositcointransaction.go : ReturnCRDepositCoinTransaction.SpecialContextCheck", ["idx fromAddrMap[output.ProgramHash]", "guard len(fromAddrMap) != 1", "guard err != nil"]),
   ("core/transaction/returndepositcointransaction.go : ReturnDepositCoinTransaction.CheckAttributeProgram", ["guard len(t.Programs()) != 1", "guard len(t.Programs()) == 0", "guard p.Code == nil", "guard len(p.Code) < program.MinProgramCodeSize", "guard p.Parameter == nil"]),
-  ("core/transaction/returndepositcointransaction.go : ReturnDepositCoinTransaction.CheckTransactionPayload", []),
   ("core/transaction/returndepositcointransaction.go : ReturnDepositCoinTransaction.SpecialContextCheck", ["idx fromAddrMap[output.ProgramHash]", "guard len(fromAddrMap) != 1", "slice program.Code[1 : len(program.Code)-1]", "guard p == nil"]),
   ("core/transaction/returnsidechaindepositcointransaction.go : ReturnSideChainDepositCoinTransaction.CheckTransactionOutput", ["guard len(t.Outputs()) > math.MaxUint16", "guard len(t.Outputs()) < 1", "guard err != nil", "guard err != nil"]),
-  ("core/transaction/returnsidechaindepositcointransaction.go : ReturnSideChainDepositCoinTransaction.CheckTransactionPayload", []),
-  ("core/transaction/returnsidechaindepositcointransaction.go : ReturnSideChainDepositCoinTransaction.HeightVersionCheck", []),
   ("core/transaction/returnsidechaindepositcointransaction.go : ReturnSideChainDepositCoinTransaction.SpecialContextCheck", ["guard err != nil", "guard err != nil", "guard len(tx.Inputs()) == 0", "idx tx.Inputs()[0]", "guard err != nil", "guard int(tx.Inputs()[0].Previous.Index) >= len(refTx.Outputs())", "idx tx.Inputs()[0]", "idx refTx.Outputs()[tx.Inputs()[0].Previous.Index]", "idx tx.Inputs()[0]", "guard err != nil", "idx tx.Outputs()[idx]", "idx tx.Outputs()[idx]"]),
-  ("core/transaction/returnvotes.go : ReturnVotesTransaction.HeightVersionCheck", []),
-  ("core/transaction/returnvotes.go : ReturnVotesTransaction.CheckTransactionPayload", []),
   ("core/transaction/returnvotes.go : ReturnVotesTransaction.CheckAttributeProgram", ["guard len(t.Programs()) != 1", "guard t.Programs()[0].Code == nil", "idx t.Programs()[0]", "guard len(t.Programs()[0].Code) < program.MinProgramCodeSize", "idx t.Programs()[0]", "guard t.Programs()[0].Parameter == nil", "idx t.Programs()[0]"]),
   ("core/transaction/returnvotes.go : ReturnVotesTransaction.SpecialContextCheck", ["idx t.Programs()[0]", "guard err != nil", "idx state.DposV2VoteRights[*stakeProgramHash]", "idx state.UsedDposV2Votes[*stakeProgramHash]", "guard err != nil"]),
   ("core/transaction/reverttodpostransaction.go : RevertToDPOSTransaction.CheckTransactionInput", ["guard len(t.Inputs()) != 0"]),
   ("core/transaction/reverttodpostransaction.go : RevertToDPOSTransaction.CheckTransactionOutput", ["guard len(t.Outputs()) > math.MaxUint16", "guard len(t.Outputs()) != 0"]),
   ("core/transaction/reverttodpostransaction.go : RevertToDPOSTransaction.CheckAttributeProgram", ["guard len(t.Programs()) != 1", "guard len(t.Attributes()) != 1", "guard len(t.Programs()) == 0", "guard p.Code == nil", "guard len(p.Code) < program.MinProgramCodeSize", "guard p.Parameter == nil"]),
-  ("core/transaction/reverttodpostransaction.go : RevertToDPOSTransaction.CheckTransactionPayload", []),
-  ("core/transaction/reverttodpostransaction.go : RevertToDPOSTransaction.HeightVersionCheck", []),
   ("core/transaction/reverttodpostransaction.go : RevertToDPOSTransaction.SpecialContextCheck", ["guard err != nil", "idx t.Programs()[0]"]),
   ("core/transaction/reverttopowtransaction.go : RevertToPOWTransaction.CheckTransactionInput", ["guard len(t.Inputs()) != 0"]),
   ("core/transaction/reverttopowtransaction.go : RevertToPOWTransaction.CheckTransactionOutput", ["guard len(t.Outputs()) > math.MaxUint16", "guard len(t.Outputs()) != 0"]),
   ("core/transaction/reverttopowtransaction.go : RevertToPOWTransaction.CheckAttributeProgram", ["guard len(t.Programs()) != 0 || len(t.Attributes()) != 0"]),
-  ("core/transaction/reverttopowtransaction.go : RevertToPOWTransaction.CheckTransactionPayload", []),
-  ("core/transaction/reverttopowtransaction.go : RevertToPOWTransaction.HeightVersionCheck", []),
-  ("core/transaction/reverttopowtransaction.go : RevertToPOWTransaction.SpecialContextCheck", []),
   ("core/transaction/sidechainpowtransaction.go : SideChainPOWTransaction.CheckTransactionInput", ["guard len(t.Inputs()) != 0", "guard len(t.Inputs()) <= 0", "idx existingTxInputs[input.ReferKey()]", "idx existingTxInputs[input.ReferKey()]"]),
   ("core/transaction/sidechainpowtransaction.go : SideChainPOWTransaction.CheckTransactionOutput", ["guard len(t.Outputs()) > math.MaxUint16", "guard len(t.Outputs()) != 1", "idx t.Outputs()[0]", "idx t.Outputs()[0]", "guard len(t.Outputs()) < 1", "guard err != nil", "guard err != nil"]),
   ("core/transaction/sidechainpowtransaction.go : SideChainPOWTransaction.CheckAttributeProgram", ["guard len(t.Programs()) != 0 || len(t.Attributes()) != 0", "guard len(t.Programs()) == 0", "guard p.Code == nil", "guard len(p.Code) < program.MinProgramCodeSize", "guard p.Parameter == nil"]),
-  ("core/transaction/sidechainpowtransaction.go : SideChainPOWTransaction.CheckTransactionPayload", []),
   ("core/transaction/sidechainpowtransaction.go : SideChainPOWTransaction.SpecialContextCheck", ["guard arbitrator == nil", "guard err != nil", "guard err != nil", "slice buf.Bytes()[0:68]", "guard err != nil"]),
   ("core/transaction/transactionchecker.go : DefaultChecker.SanityCheck", ["guard err != nil", "guard err != nil", "guard err != nil", "guard err != nil", "guard err != nil", "guard err != nil", "guard err != nil", "guard err != nil", "guard err != nil", "guard err != nil"]),
   ("core/transaction/transactionchecker.go : DefaultChecker.ContextCheck", ["guard err != nil", "guard err != nil", "guard err != nil", "guard err != nil", "guard err != nil", "guard err != nil", "guard cerr != nil", "guard err != nil", "guard err != nil", "guard err != nil", "guard err != nil", "guard err != nil", "guard err != nil", "guard err != nil"]),
-  ("core/transaction/transactionchecker.go : DefaultChecker.CheckTransactionSize", []),
   ("core/transaction/transactionchecker.go : DefaultChecker.CheckTransactionInput", ["guard len(txn.Inputs()) <= 0", "idx existingTxInputs[input.ReferKey()]", "idx existingTxInputs[input.ReferKey()]"]),
   ("core/transaction/transactionchecker.go : DefaultChecker.CheckTransactionOutput", ["guard len(txn.Outputs()) > math.MaxUint16", "guard len(txn.Outputs()) < 1", "guard err != nil", "guard err != nil"]),
   ("core/transaction/transactionchecker.go : DefaultChecker.CheckAttributeProgram", ["guard len(tx.Programs()) == 0", "guard p.Code == nil", "guard len(p.Code) < program.MinProgramCodeSize", "guard p.Parameter == nil"]),
-  ("core/transaction/transactionchecker.go : DefaultChecker.CheckTransactionPayload", []),
-  ("core/transaction/transactionchecker.go : DefaultChecker.HeightVersionCheck", []),
-  ("core/transaction/transactionchecker.go : DefaultChecker.SpecialContextCheck", []),
   ("core/transaction/transactionchecker.go : DefaultChecker.CheckTransactionFee", ["div fee * 1000 / common.Fixed64(len(buf.Bytes()))"]),
   ("core/transaction/transferassettransaction.go : TransferAssetTransaction.CheckTransactionOutput", ["guard len(t.Outputs()) > math.MaxUint16", "guard len(t.Outputs()) < 1", "guard err != nil", "guard err != nil"]),
-  ("core/transaction/transferassettransaction.go : TransferAssetTransaction.CheckTransactionPayload", []),
-  ("core/transaction/transferassettransaction.go : TransferAssetTransaction.HeightVersionCheck", []),
   ("core/transaction/transfercrosschainassettransaction.go : TransferCrossChainAssetTransaction.CheckTransactionOutput", ["guard len(t.Outputs()) > math.MaxUint16", "guard len(t.Outputs()) < 1", "guard err != nil", "guard err != nil"]),
-  ("core/transaction/transfercrosschainassettransaction.go : TransferCrossChainAssetTransaction.CheckTransactionPayload", []),
-  ("core/transaction/transfercrosschainassettransaction.go : TransferCrossChainAssetTransaction.HeightVersionCheck", []),
   ("core/transaction/transfercrosschainassettransaction.go : TransferCrossChainAssetTransaction.SpecialContextCheck", ["guard err != nil"]),
-  ("core/transaction/unregistercrtransaction.go : UnregisterCRTransaction.CheckTransactionPayload", []),
-  ("core/transaction/unregistercrtransaction.go : UnregisterCRTransaction.HeightVersionCheck", []),
   ("core/transaction/unregistercrtransaction.go : UnregisterCRTransaction.SpecialContextCheck", ["guard cr == nil", "guard err != nil", "guard err != nil", "idx t.Programs()[0]"]),
-  ("core/transaction/updatecrtransaction.go : UpdateCRTransaction.CheckTransactionPayload", []),
   ("core/transaction/updatecrtransaction.go : UpdateCRTransaction.SpecialContextCheck", ["guard err != nil", "guard err != nil", "idx t.Programs()[0]", "guard err != nil", "guard err != nil", "guard cr == nil", "guard err != nil", "idx t.Programs()[0]"]),
-  ("core/transaction/updateproducertransaction.go : UpdateProducerTransaction.HeightVersionCheck", []),
-  ("core/transaction/updateproducertransaction.go : UpdateProducerTransaction.CheckTransactionPayload", []),
   ("core/transaction/updateproducertransaction.go : UpdateProducerTransaction.SpecialContextCheck", ["guard multiSignOwner && len(info.OwnerKey) == crypto.NegativeBigLength", "guard err != nil", "guard err != nil", "guard err != nil", "guard err != nil", "guard err != nil", "guard err != nil", "guard len(t.Programs()) != 1", "idx t.Programs()[0]", "slice t.Programs()[0].Code[2:]", "idx t.Programs()[0]", "idx t.Programs()[0]", "idx t.Programs()[0]", "guard producer == nil", "guard err != nil", "guard err != nil", "guard producer != nil && !bytes.Equal(info.OwnerKey, producer.OwnerPublicKey())"]),
   ("core/transaction/updateversiontransaction.go : UpdateVersionTransaction.CheckTransactionInput", ["guard len(t.Inputs()) != 0"]),
   ("core/transaction/updateversiontransaction.go : UpdateVersionTransaction.CheckTransactionOutput", ["guard len(t.Outputs()) > math.MaxUint16", "guard len(t.Outputs()) != 0"]),
   ("core/transaction/updateversiontransaction.go : UpdateVersionTransaction.CheckAttributeProgram", ["guard len(t.Programs()) != 1", "guard len(t.Attributes()) != 1", "guard len(t.Programs()) == 0", "guard p.Code == nil", "guard len(p.Code) < program.MinProgramCodeSize", "guard p.Parameter == nil"]),
-  ("core/transaction/updateversiontransaction.go : UpdateVersionTransaction.CheckTransactionPayload", []),
   ("core/transaction/updateversiontransaction.go : UpdateVersionTransaction.SpecialContextCheck", ["guard err != nil", "idx t.Programs()[0]"]),
   ("core/transaction/votesrealwithdrawtx.go : VotesRealWithdrawTransaction.CheckAttributeProgram", ["guard len(t.Programs()) != 0", "guard len(t.Attributes()) != 0"]),
-  ("core/transaction/votesrealwithdrawtx.go : VotesRealWithdrawTransaction.CheckTransactionPayload", []),
-  ("core/transaction/votesrealwithdrawtx.go : VotesRealWithdrawTransaction.HeightVersionCheck", []),
   ("core/transaction/votesrealwithdrawtx.go : VotesRealWithdrawTransaction.SpecialContextCheck", ["guard txsCount != len(t.Outputs()) && txsCount != len(t.Outputs())-1", "idx txs[realReturnVotes.ReturnVotesTXHash]", "idx t.Outputs()[i]", "idx txsMap[realReturnVotes.ReturnVotesTXHash]", "idx txsMap[realReturnVotes.ReturnVotesTXHash]"]),
-  ("core/transaction/voting.go : VotingTransaction.HeightVersionCheck", []),
   ("core/transaction/voting.go : VotingTransaction.CheckTransactionPayload", ["assert t.Payload().(*payload.Voting)"]),
   ("core/transaction/voting.go : VotingTransaction.CheckAttributeProgram", ["guard len(t.Programs()) != 1", "guard t.Programs()[0].Code == nil", "idx t.Programs()[0]", "guard len(t.Programs()[0].Code) < program.MinProgramCodeSize", "idx t.Programs()[0]", "guard t.Programs()[0].Parameter == nil", "idx t.Programs()[0]"]),
   ("core/transaction/voting.go : VotingTransaction.SpecialContextCheck", ["idx t.Programs()[0]", "guard err != nil", "idx voteRights[*stakeProgramHash]", "idx state.UsedDposV2Votes[*stakeProgramHash]", "assert t.Payload().(*payload.Voting)", "guard len(pld.Contents) == 0", "guard err != nil", "guard err != nil", "guard err != nil", "guard err != nil", "guard err != nil", "guard len(pld.RenewalContents) == 0", "guard producer == nil", "guard err != nil", "guard len(vote.Info) != 1 || vote.Info[0].Votes != content.VotesInfo.Votes", "idx vote.Info[0]", "idx vote.Info[0]", "idx vote.Info[0]"]),
